@@ -3,11 +3,14 @@ import TLX.Props.C02Pipeline
 import TLX.Spec.QuicConnection
 import TLX.Props.C02Dissect
 import TLX.Props.C02Out
+import TLX.Props.C15
+import TLX.Crypto.Toy
 set_option linter.unusedSimpArgs false
 set_option linter.unusedVariables false
 namespace TLX.Props.C02Capstone
 open TLX TLX.Quic TLX.Cipher TLX.Quic.Session TLX.Lemmas.QuicSession TLX.Spec.QuicSender TLX.Spec.QuicFrames
 open TLX.Props.C02Session TLX.Spec.QuicConnection TLX.Spec.QuicPackets TLX.QuicPipeline
+open TLX.Spec.KeySchedules TLX.Lemmas.KeySchedule
 
 variable {σ : Type} (P : Params σ)
 
@@ -590,5 +593,156 @@ theorem quic_one_rtt_connection_exact (kl : List Keylog.Key) (L : SealLaws Pc) (
   exact out_tail c _
 
 end Capstone
+
+section RfcKeys
+variable (H : Crypto.Prims)
+
+/-- RFC 9001 §5.1 / §6.1: the 1-RTT packet protection keys of key-update generation `g`, from the two TLS traffic
+    secrets `sa` (SERVER_TRAFFIC_SECRET_0) and `ca` (CLIENT_TRAFFIC_SECRET_0) -/
+def rfcGen (h : Crypto.HashSuite) (keyLen : Nat) (sa ca : Bytes) (g : Nat) : AppKeys :=
+  ⟨⟨quicKey h (quicGeneration h sa g) keyLen, quicIv h (quicGeneration h sa g)⟩,
+   ⟨quicKey h (quicGeneration h ca g) keyLen, quicIv h (quicGeneration h ca g)⟩,
+   quicGeneration h sa g, quicGeneration h ca g⟩
+
+/-- The key chain the composed model's `key_update` produces from the RFC's generation 0 is the RFC's (C15's
+    `quic_key_update_eq_rfc` through the adapter `QuicPipeline.keyUpdate`). -/
+theorem genKeys_eq_rfc (hl : H.Lawful) (sel : SuiteSel) (v : Version) (hk : sel.keyLen < 65536)
+    (ho : (hashOf H sel.hash).outLen < 65536) (sa ca : Bytes)
+    (hs : sa.length = (hashOf H sel.hash).outLen) (hc : ca.length = (hashOf H sel.hash).outLen) (g : Nat) :
+    genKeys (keyUpdate H sel v) (rfcGen (hashOf H sel.hash) sel.keyLen sa ca 0) g =
+      rfcGen (hashOf H sel.hash) sel.keyLen sa ca g := by
+  have hlaw : (hashOf H sel.hash).Lawful := by cases sel.hash <;> simp [hashOf, hl.sha256, hl.sha384]
+  induction g with
+  | zero => rfl
+  | succ g ih =>
+    simp only [genKeys, ih]
+    unfold QuicPipeline.keyUpdate rfcGen
+    simp only
+    rw [keyUpdate_eq (hashOf H sel.hash) sel.keyLen hk ho _ (quicGeneration _ sa g) (quicGeneration _ ca g) rfl rfl
+      (quicGeneration_length _ hlaw sa hs g) (quicGeneration_length _ hlaw ca hc g)]
+    rfl
+
+
+theorem quicKey_length (h : Crypto.HashSuite) (hl : h.Lawful) (s : Bytes) (n : Nat) (hn : n ≤ 255) :
+    (quicKey h s n).length = n := by
+  unfold quicKey hkdfExpandLabel
+  exact hl.expand_len _ _ _ (by have := hl.outLen_pos; omega)
+
+theorem quicIv_length (h : Crypto.HashSuite) (hl : h.Lawful) (s : Bytes) : (quicIv h s).length = 12 := by
+  unfold quicIv hkdfExpandLabel
+  exact hl.expand_len _ _ _ (by have := hl.outLen_pos; omega)
+
+/-- `KeysWf` — every generation's key is one the AEAD of the suite takes, with a 12-byte IV — holds for the RFC key
+    chain of each of the four QUIC v1 suites, for all lawful hash functions and both traffic secrets of hash length. -/
+theorem keysWf_rfc (hl : H.Lawful) (Pc : Cipher.Prims) (kl : List Keylog.Key) (cs : Bytes) (sel : SuiteSel)
+    (hsel : selectSuite cs = some sel) (v : Version) (ho : (hashOf H sel.hash).outLen < 65536) (sa ca : Bytes)
+    (hs : sa.length = (hashOf H sel.hash).outLen) (hc : ca.length = (hashOf H sel.hash).outLen) :
+    KeysWf (params H Pc kl) sel v (rfcGen (hashOf H sel.hash) sel.keyLen sa ca 0) := by
+  have hlaw : (hashOf H sel.hash).Lawful := by cases sel.hash <;> simp [hashOf, hl.sha256, hl.sha384]
+  have hcases : (sel.alg = .aesgcm ∧ sel.keyLen = 16) ∨ (sel.alg = .aesgcm ∧ sel.keyLen = 32) ∨
+      (sel.alg = .chachaPoly ∧ sel.keyLen = 32) ∨ (sel.alg = .aesccm ∧ sel.keyLen = 16) := by
+    unfold selectSuite at hsel
+    repeat' split at hsel
+    all_goals first
+      | (cases hsel; simp)
+      | (simp at hsel)
+  have hk : sel.keyLen < 65536 := by rcases hcases with h | h | h | h <;> omega
+  have hk255 : sel.keyLen ≤ 255 := by rcases hcases with h | h | h | h <;> omega
+  intro srv g
+  have hP : (params H Pc kl).keyUpdate = keyUpdate H := rfl
+  rw [hP]
+  unfold genDir
+  rw [genKeys_eq_rfc H hl sel v hk ho sa ca hs hc g]
+  cases srv <;> simp only [rfcGen, Bool.false_eq_true, if_false, if_true, quicKey_length _ hlaw _ _ hk255,
+    quicIv_length _ hlaw]
+  all_goals
+    rcases hcases with ⟨a, b⟩ | ⟨a, b⟩ | ⟨a, b⟩ | ⟨a, b⟩ <;> rw [a, b] <;> decide
+
+end RfcKeys
+
+/-! ### non-vacuity: a concrete established connection and a concrete 1-RTT history satisfy every hypothesis -/
+
+namespace Ex
+open TLX.Crypto TLX.Props.C02Session.Ex
+
+def H : Crypto.Prims := Crypto.toyPrims
+def Pc : Cipher.Prims := Cipher.Toy.prims
+def L : SealLaws Pc := Cipher.Toy.laws
+def sel : SuiteSel := ⟨.sha256, .aesgcm, 16⟩
+def sa : Bytes := [1, 2, 3, 4]
+def ca : Bytes := [5, 6, 7, 8]
+def k0 : AppKeys := rfcGen (hashOf H sel.hash) sel.keyLen sa ca 0
+def hpC : Bytes := quicHp (hashOf H sel.hash) ca 16
+def hpS : Bytes := quicHp (hashOf H sel.hash) sa 16
+/-- any primitive: here a constant mask -/
+def maskFn : Dissect.MaskFn := fun _ _ _ => some [0xa5, 0x5a, 0xff, 0x00, 0x11]
+def info : Nat → Pipeline.Info := fun tag => ⟨0, 100 + tag, [2, 0, 0, 0, 0, 1], [2, 0, 0, 0, 0, 2], false⟩
+
+def s0 : St Tls :=
+  { tls := { hp := { clientApplication := some hpC, serverApplication := some hpS }, ver := .v1,
+             msgs := { ciphersuite := some [0x13, 0x01] } },
+    version := .v1, suite := some sel, decApp := some [k0.toDec sel.alg],
+    decInitial := some { alg := .aesgcm, server := none, client := ⟨[], []⟩ },
+    clientCids := [[0xc1]], serverCids := [[0x51], [0x52]] }
+
+def c0 : QConn :=
+  { opts := ⟨[443], false, false, false, false, []⟩, server := ⟨[10, 0, 0, 2], 443⟩, client := ⟨[10, 0, 0, 1], 50000⟩,
+    serverMac := [2, 0, 0, 0, 0, 2], clientMac := [2, 0, 0, 0, 0, 1], ipv6 := false, st := s0 }
+
+def framesB : List QFrame :=
+  [.newConnectionId ⟨1, w1⟩ ⟨0, w1⟩ [0xaa, 0xbb] (List.replicate 16 7),
+   .stream false ⟨0, w1⟩ (some ⟨70000, ⟨2, by omega⟩⟩) none [1, 2, 3]]
+
+def m5 : Bytes := [0xa5, 0x5a, 0xff, 0x00, 0x11]
+
+/-- client generation 0; the client initiates a key update and jumps to packet number 300 on two bytes; the server (which
+    has issued a connection ID) follows the update, then initiates the next one; one datagram carries no STREAM frame -/
+def d0 : Dg1 := ⟨{ level := .oneRtt, srv := false, ts := 100, pn := 0, pnLen := 1, frames := frames1, dcid := [0x51], gen := 0 }, m5⟩
+def d1 : Dg1 := ⟨{ level := .oneRtt, srv := false, ts := 101, pn := 300, pnLen := 2, frames := framesB, dcid := [0x51], gen := 1,
+                   lowBits := 5 }, m5⟩
+def d2 : Dg1 := ⟨{ level := .oneRtt, srv := true, ts := 102, pn := 7, pnLen := 4, frames := [.ping, .padding 20], dcid := [0xc1],
+                   gen := 1 }, m5⟩
+def d3 : Dg1 := ⟨{ level := .oneRtt, srv := true, ts := 103, pn := 8, pnLen := 1, frames := framesB, dcid := [0xaa, 0xbb],
+                   gen := 2 }, m5⟩
+def ds : List Dg1 := [d0, d1, d2, d3]
+
+def pktOf (i : Nat) (d : Dg1) : MainLoop.Pkt :=
+  ⟨.udp, if d.x.srv then c0.server else c0.client, if d.x.srv then c0.client else c0.server,
+    wireOf H Pc L sel .v1 k0 d, true, i⟩
+
+def items : List (MainLoop.Pkt × Dg1) := [(pktOf 0 d0, d0), (pktOf 1 d1, d1), (pktOf 2 d2, d2), (pktOf 3 d3, d3)]
+
+theorem keysWf : KeysWf (params H Pc []) sel .v1 k0 :=
+  keysWf_rfc H Crypto.toyPrims_lawful Pc [] [0x13, 0x01] sel rfl .v1 (by decide) sa ca rfl rfl
+
+theorem est0 : Est H Pc [] sel .v1 k0 hpC hpS false s0 0 0 0 0 [[0xc1]] [[0x51], [0x52]] :=
+  ⟨⟨⟨rfl, rfl, rfl, rfl, rfl, rfl, rfl⟩, rfl, rfl, rfl⟩, rfl, rfl, rfl, by decide, rfl, rfl, rfl⟩
+
+theorem wfB : WellFormedSeq framesB := by
+  simp [framesB, WellFormedSeq, QFrame.wf, QFrame.greedy, optOk, optFits]; decide
+
+theorem send1 : Send1 maskFn H Pc L sel .v1 k0 hpC hpS false 0 0 0 0 [[0xc1]] [[0x51], [0x52]] ds := by
+  simp only [ds, d0, d1, d2, d3, Send1, wf1, wfB, PnLenOk, true_and]
+  repeat' apply And.intro
+  all_goals first
+    | decide
+    | exact ⟨by decide, by decide, rfl, by decide⟩
+    | trivial
+    | (simp [WellFormedSeq, QFrame.wf, QFrame.greedy])
+
+/-- the theorem applies: three output frames (the third datagram has no STREAM frame), payloads `hi`, `\x01\x02\x03`,
+    `\x01\x02\x03`, times 100, 101, 103, the last one from the server -/
+example :
+    let QM := quicMachine maskFn H Pc info
+    QM.out false (feedAll QM [] c0 items) = expectedOut c0 ds ∧
+    (expectedOut c0 ds).map (fun p => (p.ts, p.src.port, p.payload)) =
+      [(100, 50000, [0x68, 0x69]), (101, 50000, [1, 2, 3]), (103, 8080, [1, 2, 3])] := by
+  refine ⟨(quic_one_rtt_connection_exact maskFn H Pc info [] L sel .v1 k0 hpC hpS false keysWf items c0 0 0 0 0
+    [[0xc1]] [[0x51], [0x52]] rfl est0 (by intro o ho; cases ho) ?_ send1 (by decide)).2, by decide⟩
+  intro x hx
+  simp only [items, List.mem_cons, List.not_mem_nil, or_false] at hx
+  rcases hx with rfl | rfl | rfl | rfl <;> exact ⟨rfl, rfl, by decide⟩
+
+end Ex
 
 end TLX.Props.C02Capstone
